@@ -9,6 +9,7 @@ Oracle: positive - the loaded Track equals the model under a reference interpret
 negative - the load raises TrackSyntaxError / InvalidSyntax / TrackConfigError; a successful load or any other exception is a violation.
 """
 import copy
+import hashlib
 import logging
 import os
 import re
@@ -127,7 +128,8 @@ def teardown():
 @st.composite
 def _case(draw, tier):
     negative = draw(st.booleans())
-    kind = KINDS[draw(st.integers(0, 10**6)) % len(KINDS)] if negative else None
+    # (hashed: Hypothesis favours small and round integers, which left a third of the kinds without a generated case)
+    kind = KINDS[int(hashlib.sha256(str(draw(st.integers(0, 2**32))).encode()).hexdigest(), 16) % len(KINDS)] if negative else None
     need = NEEDS[kind] if kind else {}
     kw = {}
     if need.get("challenges"):
@@ -322,8 +324,16 @@ def apply_violation(doc, user_params, v, model):
             for t in par["tasks"]:
                 _strip_timing(t)
             par.update({"ramp-up-time-period": 2})
-            for t in par["tasks"]:
-                t["iterations"] = 1 + a % 5
+            if b % 3 == 2:
+                # warm-up by iterations next to a ramp-up whose own rules (a warm-up period that is long enough) are met
+                par["warmup-time-period"] = 2 + a % 2
+                for t in par["tasks"]:
+                    t["warmup-iterations"] = 1 + a % 3
+            else:
+                for t in par["tasks"]:
+                    t["iterations"] = 1 + a % 5
+        elif b % 3 == 2:
+            leaf.update({"ramp-up-time-period": 2, "warmup-time-period": 2 + a % 2, "warmup-iterations": 1 + a % 3})
         else:
             leaf.update({"ramp-up-time-period": 2, "iterations": 1 + a % 5})
             if b % 2:
@@ -608,7 +618,7 @@ _BASE_MODELS = [
 
 def enumerate_cases(tier):
     """every violation kind x the two hand-written base tracks x a small grid of positions; plus the base tracks themselves (positive)"""
-    grid = [(0, 0), (1, 1), (2, 3)] if tier == "quick" else [(a, b) for a in range(4) for b in range(4)]
+    grid = [(0, 0), (1, 1), (2, 3), (3, 2)] if tier == "quick" else [(a, b) for a in range(4) for b in range(4)]
     layouts = [
         {"order": 0, "indent": 2, "import": False, "ops_part": False, "challenge_parts": False, "nested_part": False},
         {"order": 7, "indent": None, "import": True, "ops_part": True, "challenge_parts": True, "nested_part": True},
